@@ -51,7 +51,7 @@ bool RouterSession::extraOp(const Json &op, const std::string &o, std::string &e
         Jn j; j.pt = Pt{op["pt"][0].num(), op["pt"][1].num()}; j.alive = true;
         ex = guardedLocal([&] { j.ref = new JunctionRef(router, Point(j.pt.x, j.pt.y)); if (op.boolean("fixed", false)) j.ref->setPositionFixed(true); });
         j.fixed = op.boolean("fixed", false);
-        junctions[k] = j; edited = true;
+        junctions[k] = j; edited = true; addedJunctionsThisTxn.insert(k);
         return true;
     }
     if (o == "moveJunction") {
@@ -67,6 +67,7 @@ bool RouterSession::extraOp(const Json &op, const std::string &o, std::string &e
         int k = (int)op["id"].i();
         auto it = junctions.find(k);
         if (it == junctions.end() || !it->second.alive) return false;
+        if (addedJunctionsThisTxn.count(k) && useTransactions) return false;      // documented precondition: no add+delete of one object in one transaction
         it->second.alive = false;
         for (auto &kv : conns) for (int e = 0; e < 2; e++) if (kv.second.alive && kv.second.e[e].kind == 2 && kv.second.e[e].junction == k) { kv.second.detachedByDelete = true; kv.second.e[e].kind = 3; }
         ex = guardedLocal([&] { router->deleteJunction(it->second.ref); });
@@ -100,7 +101,22 @@ void RouterSession::checkPins(const char *when) {
             if (ce.kind == 3) continue;
             Pt p = e ? d.back() : d.front(), q = e ? d[d.size() - 2] : d[1];
             if (ce.kind == 2) {
+                // connectors that take part in a hyperedge (junction ends) may have their route stored in the reverse direction:
+                // route ends are matched to the two attachments as an unordered pair
+                {
+                    Jn &jj = junctions[ce.junction];
+                    Avoid::Point rc = jj.ref ? jj.ref->recommendedPosition() : Avoid::Point(jj.pt.x, jj.pt.y);
+                    auto at = [&](Pt u) { return (std::fabs(u.x - jj.pt.x) < 1e-9 && std::fabs(u.y - jj.pt.y) < 1e-9) || (std::fabs(u.x - rc.x) < 1e-9 && std::fabs(u.y - rc.y) < 1e-9); };
+                    Pt other = e ? d.front() : d.back();
+                    if (!at(p) && at(other)) p = other;
+                }
                 Jn &j = junctions[ce.junction];
+                // with improveHyperedgeRoutesMovingJunctions (on by default) the router routes to the position it recommends for a
+                // free junction and leaves moving the junction itself to the client (router.h:192-210)
+                bool improver = options.count(O_hyperMove) ? options[O_hyperMove] : true;
+                Avoid::Point rec = j.ref ? j.ref->recommendedPosition() : Avoid::Point(j.pt.x, j.pt.y);
+                bool atRecommended = improver && !j.fixed && std::fabs(p.x - rec.x) < 1e-9 && std::fabs(p.y - rec.y) < 1e-9;
+                if (atRecommended && (std::fabs(p.x - j.pt.x) > 1e-9 || std::fabs(p.y - j.pt.y) > 1e-9)) { probe("router.junction-end-at-recommended-position"); continue; }
                 if (std::fabs(p.x - j.pt.x) > 1e-9 || std::fabs(p.y - j.pt.y) > 1e-9) violate("C11", "junction-end", "end-not-at-junction-position" + z0, fmt("conn %d end %d at (%g,%g), junction %d at (%g,%g) after %s", kv.first, e, p.x, p.y, ce.junction, j.pt.x, j.pt.y, when));
                 else probe("router.junction-end-checked");
                 continue;
@@ -293,6 +309,7 @@ static void genPins(SceneGen &sg, int id, Json &o, bool allowZeroInside) {
     s.pinsIds = {1, 1, 1, 1, 2, 3};
 }
 
+void addJunctionOps(RouterGenCfg &g, double pEnd);
 static Json genC11(const std::string &prop, uint64_t seed, const std::string &tier) {
     Rng r(Rng::mix(seed, "plan"));
     Json p = planSkeleton(prop, "router", seed, r, 200);
@@ -328,6 +345,7 @@ static Json genC11(const std::string &prop, uint64_t seed, const std::string &ti
         return true;
     };
     if (tier == "thorough") { g.maxShapes = 8; g.maxConns = 8; g.maxSteps = 9; }
+    if (r.chance(0.3)) addJunctionOps(g, 0.5);          // "an end attached to a junction ends at the junction's position"
     ss.push(genRouterSession(r, g));
     if (r.chance(0.3)) ss.push(r.chance(0.5) ? genOverlapSession(r, "quick") : genSolverSession(r, "quick"));
     p.set("sessions", ss);
@@ -405,6 +423,7 @@ static GenRegistrar g10("C10", genC10), g11("C11", genC11);
 
 // pins, junction ends and nudging scenes also take part in the C15 / C20 worlds
 static void extendForMix(Rng &r, RouterGenCfg &g, bool forC20) {
+    if (r.chance(0.3)) { addJunctionOps(g, 0.5); g.styleExtra = g.styleExtra.empty() ? "junctions" : g.styleExtra + "+junctions"; }
     if (r.chance(0.4)) {
         g.polygons = false; g.gap = std::max(g.gap, 30.0); g.endMargin = std::max(g.endMargin, 2.0);
         bool zero = r.chance(0.1);
@@ -427,6 +446,53 @@ static void extendForMix(Rng &r, RouterGenCfg &g, bool forC20) {
         g.allowDeleteAttached = !forC20 && r.chance(0.5);     // deleting a shape whose pins are in use is legal (C15 watches)
         g.styleExtra = "pins";
     }
+}
+// junctions as ordinary scene objects (free-standing junctions with connectors attached): add, move, delete in any order,
+// including move + delete of one junction inside one transaction
+void addJunctionOps(RouterGenCfg &g, double pEnd) {
+    auto prevSetup = g.setupHook;
+    g.setupHook = [prevSetup](SceneGen &sg, Json &ops) {
+        if (prevSetup) prevSetup(sg, ops);
+        int nj = sg.r.range(1, 2);
+        for (int k = 0; k < nj; k++) {
+            Pt p = sg.freePoint();
+            int id = sg.nextJunction++;
+            sg.junctions[id].p = p; sg.junctions[id].alive = true;
+            Json o = Json::obj(); o.set("op", "addJunction"); o.set("id", id); o.set("pt", ptJ(p)); if (sg.r.chance(0.2)) o.set("fixed", true);
+            ops.push(o);
+            // two or three connectors from free points to the junction
+            int nc = sg.r.range(2, 3);
+            for (int c = 0; c < nc; c++) {
+                SceneGen::GC gc; gc.alive = true;
+                Pt q = sg.freePoint();
+                gc.e[0] = q; gc.freeEnd[0] = true; gc.e[1] = p; gc.freeEnd[1] = false; gc.junctionEnd[1] = id;
+                int cid = sg.nextConn++;
+                sg.conns[cid] = gc;
+                Json co = Json::obj(); co.set("op", "addConn"); co.set("id", cid);
+                Json ea = Json::obj(); ea.set("pt", ptJ(q)); Json eb = Json::obj(); eb.set("junction", id);
+                co.set("src", ea); co.set("dst", eb); co.set("ctor", (long)sg.r.below(2));
+                ops.push(co);
+            }
+        }
+    };
+    g.editHook = [](SceneGen &sg, Json &ops) {
+        std::vector<int> ids; for (auto &kv : sg.junctions) if (kv.second.alive) ids.push_back(kv.first);
+        if (ids.empty()) return;
+        int id = sg.r.pick(ids);
+        int what = (int)sg.r.below(10);
+        if (what < 6) {
+            Pt p = sg.freePoint(); sg.junctions[id].p = p;
+            Json o = Json::obj(); o.set("op", "moveJunction"); o.set("id", id); o.set("pt", ptJ(p)); ops.push(o);
+            if (sg.r.chance(0.25)) { sg.junctions[id].alive = false; Json d = Json::obj(); d.set("op", "deleteJunction"); d.set("id", id); ops.push(d); }   // move, then delete, in one transaction
+        } else if (what < 8) {
+            sg.junctions[id].alive = false; Json d = Json::obj(); d.set("op", "deleteJunction"); d.set("id", id); ops.push(d);
+        } else {
+            Pt p = sg.freePoint(); int nid = sg.nextJunction++; sg.junctions[nid].p = p; sg.junctions[nid].alive = true;
+            Json o = Json::obj(); o.set("op", "addJunction"); o.set("id", nid); o.set("pt", ptJ(p)); ops.push(o);
+        }
+    };
+    g.wMove = 50; g.wDelete = 8; g.wAdd = 6; g.wMoveEnd = 6; g.wReshape = 5; g.wAddConn = 4; g.wDelConn = 4;      // the rest (17%) goes to the junction hook
+    (void)pEnd;
 }
 static Json mixNudge(Rng &r, const std::string &tier, bool) { return genNudgeSession(r, tier); }
 static MixGenRegistrar mgn(mixNudge);
